@@ -12,6 +12,7 @@ import hashlib
 import itertools
 import os
 import shutil
+import time
 from pathlib import Path
 
 from vf.core import rng_for
@@ -84,7 +85,12 @@ def wrong_sig(res, ref):
 class Scene:
     """A FASTA file with cache files in a chosen initial state, on a logical clock."""
 
-    def __init__(self, d, name="a.fa", symlink=False):
+    def __init__(self, d, name="a.fa", symlink=False, clockmode="logical"):
+        # clockmode: "logical"   - FASTA mtimes 10 s apart in 2001, caches stamped onto the same clock
+        #            "subsecond" - the same, 0.25 s apart (mtimes that differ only in their fraction)
+        #            "future"    - FASTA mtimes 0.25 s apart and *ahead of the wall clock* (clock skew, files
+        #                          copied with their times): cache files keep the mtime the tool gave them
+        self.clockmode = clockmode
         self.dir = Path(d)
         self.dir.mkdir(parents=True, exist_ok=True)
         self.fa = self.dir / name
@@ -95,10 +101,13 @@ class Scene:
             self.real.parent.mkdir(parents=True, exist_ok=True)
         self.fai = Path(str(self.fa) + ".fai")
         self.agp = Path(str(self.fa) + ".agp")
-        self.clock = 1_000_000_000
+        self.reset_clock()
+
+    def reset_clock(self):
+        self.clock = 1_000_000_000 if self.clockmode != "future" else int(time.time()) + 5000
 
     def tick(self):
-        self.clock += 10
+        self.clock += 10 if self.clockmode == "logical" else 0.25
         return self.clock
 
     def wipe(self):
@@ -117,6 +126,8 @@ class Scene:
 
     def stamp_caches(self):
         """Move cache files written 'now' onto the logical clock (time passes)."""
+        if self.clockmode == "future":
+            return
         t = self.tick()
         for p in (self.fai, self.agp):
             if p.exists() and p.stat().st_mtime > 1_500_000_000:
@@ -140,7 +151,7 @@ class Scene:
 
     def setup(self, scenario, data, old=None):
         self.wipe()
-        self.clock = 1_000_000_000
+        self.reset_clock()
         self.write_fasta(data)
         if scenario == "cold":
             return
@@ -369,6 +380,7 @@ def run_sched(shard, ctx):
 # driver 1: histories
 # ---------------------------------------------------------------------------
 
+KEPT = ["load-and-keep-object", "reload-kept-object"]
 STEPS = ["rewrite", "rewrite-equal-mtime", "del-fai", "del-agp", "load", "crash-load", "load-after-edit-since-construction"]
 
 
@@ -383,13 +395,19 @@ def variant(rng, k):
 
 def run_history(ctx, scene, hist, rng, case):
     scene.wipe()
-    scene.clock = 1_000_000_000
+    scene.reset_clock()
     k = 0
+    kept = None
     scene.write_fasta(variant(rng, k))
     ctx.case()
     ctx.nontrivial(["history", hist])
     for step in hist:
         if step == "rewrite":
+            k += 1
+            scene.write_fasta(variant(rng, k))
+        elif step == "rewrite-equal-mtime" and scene.clockmode == "future":
+            # on this clock the caches carry wall-clock times *behind* the FASTA: giving the new FASTA their
+            # time would move its mtime backwards, which no history of the property's alphabet does
             k += 1
             scene.write_fasta(variant(rng, k))
         elif step == "rewrite-equal-mtime":
@@ -417,6 +435,32 @@ def run_history(ctx, scene, hist, rng, case):
             ctx.count(f"history:load-after-edit:{cls.split(':')[0]}")
             if cls == "WRONG":
                 ctx.violation(f"history:object-created-before-edit-loaded-silently-wrong:{wrong_sig(p.result, ref)}", f"history {hist}: {describe_wrong(p.result, ref)}", case)
+                return
+        elif step == "load-and-keep-object":
+            # in this process: the object stays alive across the following steps
+            from tola.fasta.index import FastaIndex
+
+            try:
+                kept = FastaIndex(scene.fa, 50)
+                kept.auto_load()
+            except Exception:  # noqa: BLE001 - a loud failure is an allowed outcome
+                kept = None
+            scene.stamp_caches()
+        elif step == "reload-kept-object":
+            # a second auto_load() on the object kept above: refuse, or answer for the file as it is now
+            if kept is None:
+                continue
+            ref = reference(scene.data)
+            try:
+                kept.auto_load()
+                res = ("ok", *sched.result_of(kept))
+            except Exception as e:  # noqa: BLE001
+                res = ("exc", type(e).__name__)
+            scene.stamp_caches()
+            cls = classify_result(res, ref)
+            ctx.count(f"history:reload-kept:{cls.split(':')[0]}")
+            if cls == "WRONG":
+                ctx.violation(f"history:second-load-of-one-object-silently-wrong:{wrong_sig(res, ref)}", f"history {hist}: {describe_wrong(res, ref)}", case)
                 return
         elif step in ("load", "crash-load"):
             ref = reference(scene.data)
@@ -453,7 +497,8 @@ def run_history(ctx, scene, hist, rng, case):
 
 def run_histories(shard, ctx):
     scratch = Path(os.environ.get("VERIF_SHARD_SCRATCH", "."))
-    scene = Scene(scratch / "hist", symlink=shard.get("symlink", False))
+    scene = Scene(scratch / "hist", symlink=shard.get("symlink", False), clockmode=shard.get("clock", "logical"))
+    ctx.count(f"history:clock-{scene.clockmode}-shards")
     if shard.get("symlink"):
         ctx.count("history:fasta-via-symlink-shards")
     if shard["mode"] == "all":
@@ -465,10 +510,13 @@ def run_histories(shard, ctx):
         hists = []
         for i in range(shard["n"]):
             rng = rng_for(shard["seed"], "c15h", shard["index"], i)
-            hists.append([rng.choice(STEPS + ["load"]) for _ in range(rng.randint(4, 10))])
+            hists.append([rng.choice(STEPS + KEPT + ["load"]) for _ in range(rng.randint(4, 10))])
+            if i % 4 == 0:
+                # designed: an object loads, the file changes and someone else rebuilds, the object loads again
+                hists[-1] = ["load-and-keep-object", rng.choice(["rewrite", "rewrite", "del-agp"]), "load", "reload-kept-object"] + hists[-1][:3]
     for i, h in enumerate(hists):
         rng = rng_for(shard["seed"], "c15hv", shard["index"], i)
-        run_history(ctx, scene, h + ["load"], rng, {"kind": "history", "steps": h + ["load"], "seed": shard["seed"], "index": shard["index"], "i": i, "symlink": shard.get("symlink", False)})
+        run_history(ctx, scene, h + ["load"], rng, {"kind": "history", "steps": h + ["load"], "seed": shard["seed"], "index": shard["index"], "i": i, "symlink": shard.get("symlink", False), "clock": scene.clockmode})
 
 
 def run(shard, ctx):
@@ -478,7 +526,7 @@ def run(shard, ctx):
 def replay(case, ctx):
     scratch = Path(os.environ.get("VERIF_SHARD_SCRATCH", "."))
     if case["kind"] == "history":
-        run_history(ctx, Scene(scratch / "hist", symlink=case.get("symlink", False)), case["steps"], rng_for(case["seed"], "c15hv", case["index"], case["i"]), case)
+        run_history(ctx, Scene(scratch / "hist", symlink=case.get("symlink", False), clockmode=case.get("clock", "logical")), case["steps"], rng_for(case["seed"], "c15hv", case["index"], case["i"]), case)
         return
     rng = rng_for(case["seed"], "c15crash" if case["kind"] in ("crash", "interrupt") else "c15sched", case["index"])
     if case["kind"] in ("crash", "interrupt"):
@@ -514,10 +562,14 @@ def plan(tier, seed):
     if quick:
         sh += [{"kind": "history", "mode": "all", "length": 3, "part": p, "nparts": 3} for p in range(3)]
         sh += [{"kind": "history", "mode": "random", "n": 40}, {"kind": "history", "mode": "random", "n": 40, "symlink": True}]
+        sh += [{"kind": "history", "mode": "random", "n": 40, "clock": "future"}, {"kind": "history", "mode": "random", "n": 30, "clock": "subsecond"}]
+        sh += [{"kind": "history", "mode": "all", "length": 3, "part": 0, "nparts": 2, "clock": "future"}]
     else:
         sh += [{"kind": "history", "mode": "all", "length": 4, "part": p, "nparts": 6} for p in range(6)]
         sh += [{"kind": "history", "mode": "random", "n": 400} for _ in range(2)] + [{"kind": "history", "mode": "random", "n": 400, "symlink": True}]
         sh += [{"kind": "history", "mode": "all", "length": 3, "part": 0, "nparts": 1, "symlink": True}]
+        sh += [{"kind": "history", "mode": "random", "n": 400, "clock": "future"}, {"kind": "history", "mode": "random", "n": 400, "clock": "subsecond"}]
+        sh += [{"kind": "history", "mode": "all", "length": 4, "part": p, "nparts": 3, "clock": "future"} for p in range(3)]
     # crash points
     sh += [{"kind": "crash", "size": "small", "scenarios": ["cold", "stale", "equal-mtime"]},
            {"kind": "crash", "size": "small", "scenarios": ["fai-deleted", "agp-deleted", "fresh"]}]
@@ -554,6 +606,9 @@ def gates(c, tier):
         "history:crash-loads": 30,
         "history:load-after-edit:correct": 30,
         "history:fasta-via-symlink-shards": 1,
+        "history:clock-future-shards": 1,
+        "history:clock-subsecond-shards": 1,
+        "history:reload-kept:loud": 10,
         "crash:runs": 400,
         "crash:at-raw-file-op": 100,
         "interrupt:runs": 150,
